@@ -5,7 +5,7 @@ from ..frontend import AnalysisError, src, walk_no_nested
 from ..symx import run_paths
 from ..lin import Form, Lin
 from ..effects import Effects
-from ..generic import stale_alias
+from ..generic import stale_alias, guarded_refill_needs_empty
 from ..pathcond import implied
 
 MANIFEST = {
@@ -59,6 +59,7 @@ def run(ctx):
         'D4 no stale local alias of phase/data containers after a re-binding call',
         'D5 copy-with-removal zeroes exactly the index it copied',
         'D6 separate_out subtracts exactly the operand data through one index_overlap result',
+        'D7 re-indexing refills (reset_chemicals) start from an empty container; the index_overlap memo is keyed by the ordered CAS sequence its value depends on',
     ]
     ctx.not_decided = ['numerical equality for all flows', 'correctness of run-time CAS remapping tables']
     d1 = ctx.rule('D1', 'split closure and scaling (D-lin)', floor=10)
@@ -82,6 +83,11 @@ def run(ctx):
                     stale_alias(prog, eff, f, ALIAS_FIELDS, d4)
     copy_flow_rule(ctx, d5)
     separate_rule(ctx, d6)
+    d7 = ctx.rule('D7', 'non-zero-only refills start from an empty container; overlap memo keyed by the ordered CAS tuple', floor=4)
+    for f in prog.all_functions():
+        if f.module.rel == IX:
+            guarded_refill_needs_empty(prog, f, d7)
+    overlap_key_rule(ctx, d7)
 
 
 # ----------------------------------------------------------------------------
@@ -630,3 +636,53 @@ def separate_rule(ctx, d6):
         d6.ok('Stream.separate_out', 'delegates once to self._imol.separate_out(other._imol)', g)
     else:
         d6.fail('Stream.separate_out', 'delegate', 'material subtraction is not delegated exactly once', g, g.node)
+
+
+LOSSY = {'frozenset', 'set', 'sorted', 'len', 'hash', 'sum', 'min', 'max', 'str', 'repr', 'id'}
+
+
+def overlap_key_rule(ctx, d7):
+    """index_overlap memoises left_index, which depends on the ORDER of the CAS sequence; the memo key
+    must therefore be an order-preserving encoding of exactly that sequence."""
+    prog = ctx.prog
+    f = prog.func(IX, 'index_overlap')
+    keys = set()
+    for n in walk_no_nested(f.node):
+        if isinstance(n, ast.Subscript) and src(n.value) == 'cache':
+            keys.add(src(n.slice))
+        if isinstance(n, ast.Compare) and isinstance(n.ops[0], ast.In) and src(n.comparators[0]) == 'cache':
+            keys.add(src(n.left))
+    # the sequence the value is computed from:  CAS = SEQ[i] inside the loop filling left_index
+    seqs = set()
+    for n in walk_no_nested(f.node):
+        if isinstance(n, ast.Assign) and isinstance(n.value, ast.Subscript) and src(n.targets[0]) == 'CAS':
+            seqs.add(src(n.value.value))
+    if len(keys) != 1 or len(seqs) != 1:
+        d7.fail('index_overlap', 'memo-key-shape', 'memo uses keys %s for a value computed from %s' % (sorted(keys), sorted(seqs)), f, f.node)
+        return
+    key, seq = keys.pop(), seqs.pop()
+    defs = {src(n.targets[0]): n.value for n in walk_no_nested(f.node) if isinstance(n, ast.Assign) and len(n.targets) == 1}
+
+    def order_preserving(name, depth=0):
+        if name == seq:
+            return True
+        v = defs.get(name)
+        if v is None or depth > 3:
+            return False
+        if isinstance(v, ast.Call) and src(v.func) in LOSSY:
+            return False
+        if isinstance(v, ast.Call) and src(v.func) in ('tuple', 'list') and len(v.args) == 1:
+            a = v.args[0]
+            return (isinstance(a, ast.Name) and order_preserving(a.id, depth + 1)) or src(a) == seq or isinstance(a, (ast.ListComp, ast.GeneratorExp))
+        if isinstance(v, ast.Name):
+            return order_preserving(v.id, depth + 1)
+        return False
+    # seq itself must be the ordered gather over right_index
+    sv = defs.get(seq)
+    ordered = sv is not None and 'for i in right_index' in src(sv)
+    if order_preserving(key) and ordered:
+        d7.ok('index_overlap', 'memo key %r is an order-preserving encoding of the CAS sequence %r the cached left index is computed from' % (key, seq), f)
+    else:
+        d7.fail('index_overlap', 'memo-key-lossy', 'the cached left index depends on the order of %r but the memo key %r (= %s) does not determine that order: '
+                'a later call with the same chemicals in another order receives positions for the wrong chemicals'
+                % (seq, key, src(defs[key]) if key in defs else key), f, f.node)
